@@ -50,7 +50,17 @@ func trimStack(s string) string {
 	var keep []string
 	for _, l := range lines {
 		if strings.Contains(l, "rigo-go") || strings.Contains(l, "/repo/") {
-			keep = append(keep, strings.TrimSpace(l))
+			l = strings.TrimSpace(l)
+			// no addresses or argument values: the event log must be identical in every process
+			if i := strings.Index(l, "("); i >= 0 && !strings.HasPrefix(l, "/") {
+				if j := strings.LastIndex(l, "("); j > i {
+					l = l[:j]
+				}
+			}
+			if i := strings.Index(l, " +0x"); i >= 0 {
+				l = l[:i]
+			}
+			keep = append(keep, l)
 		}
 		if len(keep) >= 12 {
 			break
